@@ -261,6 +261,32 @@ theorem builtin_calls_never_self_acquire (f : LockFn) (hf : f ∈ LockFn.all) (h
     (builtin_fns_never_relock f hf hr p hp)
 
 -- `l.concat(l)`: self = other = 5, the new list is 9: the call locks 5 once, then 9
+/-- `StringBuf` (src/value/string_buf.rs) is the other built-in value behind an `Arc<Mutex<..>>`.
+    The crate does not export the type (read from src/lib.rs on every run: `LockFn.threadLocal`), so a
+    StringBuf is never used by two threads and `lock()` never waits for another thread; what is left is
+    that a call never waits for ITSELF.  On every control-flow path of `push_char`, `push_string`,
+    `as_string` and of `==` (which takes two locks in one statement) no mutex is acquired that may
+    already be held: `a == a` returns before any lock is taken (`Arc::ptr_eq`). -/
+theorem thread_local_fns_never_relock :
+    ∀ f ∈ LockFn.all, f.threadLocal = true → ∀ p ∈ f.tree.paths, noRelock p [] .top = true := by
+  decide
+
+/-- …hence every call of one of them, on any two buffers — the same one twice included —
+    whichever way its branches go, never acquires a mutex it still holds (never hangs its thread). -/
+theorem thread_local_calls_never_self_acquire (f : LockFn) (hf : f ∈ LockFn.all) (ht : f.threadLocal = true)
+    (ρ : Tgt → Nat) (hρ : RhoOk ρ) (o : List Bool) : heldOk (f.tree.exec ρ o) [] = true := by
+  obtain ⟨p, hp, hh, he⟩ := exec_path ρ f.tree o
+  rw [← he]
+  exact noRelock_sound ρ hρ p [] [] .top (top_admits ρ) hh List.nodup_nil (by simp)
+    (thread_local_fns_never_relock f hf ht p hp)
+
+-- non-vacuity: `==` on StringBuf is one of them and has the early-return path and the two-lock path;
+-- without the `Arc::ptr_eq` return the two-lock path is rejected (`a == a` would wait for itself)
+example : LockFn.PartialEq_for_StringBuf_eq ∈ LockFn.all ∧ (LockFn.PartialEq_for_StringBuf_eq).threadLocal = true
+    ∧ (LockFn.PartialEq_for_StringBuf_eq).tree.paths.length = 2
+    ∧ noRelock [.acq .blocking .unwrap .self_, .acq .blocking .unwrap .other, .rel .other, .rel .self_] [] .top = false := by
+  decide
+
 example : (LockFn.ErasedList_concat).tree.exec (fun t => if t = .fresh then 9 else 5) []
     = [.acq .blocking .unwrap 5, .acq .blocking .unwrap 9, .rel 9, .rel 5] := by decide
 -- `a.concat(b)` with `b` below `a`: `b` (3) is locked first, then `a` (5), then the new list
